@@ -11,7 +11,6 @@ import (
 	"os/exec"
 	"path/filepath"
 	"strings"
-	"syscall"
 	"time"
 
 	z80 "github.com/koron-go/z80"
@@ -552,6 +551,9 @@ func c18Tool(c *Ctx, alphabet []c18Call) int64 {
 		End     string    `json:"end"` // jp0, halt, none (falls into an unsupported call)
 		All     bool      `json:"all_flag"`
 		MemProf bool      `json:"unwritable_memprof"`
+		// MemProfOK: -memprof with a writable path; whatever happens to the profile, an abnormal end of the program
+		// still ends with a non-zero status
+		MemProfOK bool `json:"writable_memprof"`
 		// Fifo: the image file is a named pipe whose writer delivers the image in two parts with a pause in between
 		Fifo bool `json:"image_through_fifo_in_two_parts"`
 	}
@@ -614,12 +616,17 @@ func c18Tool(c *Ctx, alphabet []c18Call) int64 {
 		if tc.MemProf {
 			args = append(args, "-memprof", filepath.Join(dir, "no", "such", "dir", "mem.prof"))
 		}
+		if tc.MemProfOK {
+			args = append(args, "-memprof", filepath.Join(dir, "mem.prof"), "-cpuprof", filepath.Join(dir, "cpu.prof"))
+			defer os.Remove(filepath.Join(dir, "mem.prof"))
+			defer os.Remove(filepath.Join(dir, "cpu.prof"))
+		}
 		os.Remove(filepath.Join(dir, "zexdoc.cim"))
 		os.Remove(filepath.Join(dir, "zexall.cim"))
 		fifoDone := make(chan struct{})
 		if tc.Fifo {
 			path := filepath.Join(dir, name)
-			if err := syscall.Mkfifo(path, 0o644); err != nil {
+			if err := makeFifo(path); err != nil {
 				c.Set("fifo_cases", "skipped: "+err.Error())
 				return true
 			}
@@ -651,7 +658,7 @@ func c18Tool(c *Ctx, alphabet []c18Call) int64 {
 		err := cmd.Run()
 		if tc.Fifo {
 			// unblock a writer whose reader went away early, then wait for it
-			if f, e := os.OpenFile(filepath.Join(dir, name), os.O_RDONLY|syscall.O_NONBLOCK, 0); e == nil {
+			if f, e := openNonblockRead(filepath.Join(dir, name)); e == nil {
 				<-fifoDone
 				f.Close()
 			} else {
@@ -711,6 +718,15 @@ func c18Tool(c *Ctx, alphabet []c18Call) int64 {
 		ok = one(tcase{Calls: []c18Call{reloc(a, 0)}, End: "halt"}) &&
 			one(tcase{Calls: []c18Call{reloc(a, 0), reloc(a, 1)}, End: "jp0", MemProf: true}) &&
 			one(tcase{Calls: []c18Call{reloc(a, 0), {Kind: "unsupported", Fn: 3}}, End: "jp0"})
+	}
+	// profiles requested and written: the verdict of the run is not lost over them
+	for _, a := range alphabet[:3] {
+		if !ok {
+			return n
+		}
+		ok = one(tcase{Calls: []c18Call{reloc(a, 0)}, End: "halt", MemProfOK: true}) &&
+			one(tcase{Calls: []c18Call{reloc(a, 0), {Kind: "unsupported", Fn: 3}}, End: "jp0", MemProfOK: true}) &&
+			one(tcase{Calls: []c18Call{reloc(a, 0)}, End: "jp0", MemProfOK: true})
 	}
 	// the image arrives through a named pipe in two parts
 	for _, a := range alphabet[3:6] {
